@@ -297,6 +297,13 @@ Proof.
   - exact H1.
 Qed.
 
+Lemma register_all_q_NoDup rs : forall s, NoDup (map fst s) -> NoDup (map fst (fst (register_all_q s rs))).
+Proof.
+  induction rs as [|r rest IH]; intros s Hnd; cbn [register_all_q]; [exact Hnd|].
+  pose proof (register_NoDup s r Hnd) as H1. destruct (register s r) as [s' o]. cbn [fst] in H1.
+  specialize (IH s' H1). destruct (register_all_q s' rest) as [s2 outs]. exact IH.
+Qed.
+
 Lemma further_loop_total vt pop h ps inj :
   fix_c08 vt = true ->
   (exists out, further_loop vt pop h ps inj = LOk out) \/ further_loop vt pop h ps inj = LErr.
